@@ -1018,7 +1018,1176 @@ def class_refs(c, tgt, kw, cnames):
         viol('class-level-references-refused', observed=repr(n), **d)
 
 
+# ---------------------------------------------------------------- histories on ONE connection (dynamic model)
+# Everything below keeps its own book of what is stored per namespace (classes with their superclass link, node
+# instances, association instances with their reference values) and derives the expected answers from that book only.
+K_CLS = 'known:class-level-associators-decided-per-property-not-per-end-pair'
+K_MOFNS = 'known:mof-redefinition-of-class-lands-in-default-namespace'
+QUAL_MOF = MOF.strip().split('\n')[0] + '\n' + MOF.strip().split('\n')[1] + '\n'
+WAYS = ('create', 'add', 'mof')
+WHAT_CLS = ('class-level Associators/AssociatorNames takes every reference property of a selected association class '
+            'as a far end on its own instead of pairing two distinct ends: the end the source class itself occupies '
+            '(also the one named by Role) is returned unless it is typed exactly (case-sensitively) as the source and '
+            'no other end has that type; e.g. with [Association] A_Mixed{N_Base REF Left; N_Other REF Right} and '
+            'N_Sub : N_Base, AssociatorNames("N_Sub") and AssociatorNames("N_Sub", Role="Left") answer '
+            '[N_Base, N_Other] (expected [N_Other]; AssociatorNames("N_Base") answers [N_Other]), and with '
+            'A_Bin{N_Base REF Ante; N_Base REF Dep}, AssociatorNames("N_Base", Role="Ante", ResultRole="Ante") '
+            'answers [N_Base] (expected nothing: no other end is named Ante)')
+
+
+class Abort(Exception):
+    pass
+
+
+class Spec:
+    """One class as written (local elements only). refs: (role, reference class, is key)."""
+
+    def __init__(self, name, parent=None, assoc=False, refs=(), idkey=False):
+        self.name, self.parent, self.assoc, self.refs, self.idkey = name, parent, assoc, tuple(refs), idkey
+
+    def mof(self):
+        body = '[Key] string Id; ' if self.idkey else ''
+        for r, t, k in self.refs:
+            body += '%s%s REF %s; ' % ('[Key] ' if k else '', t, r)
+        return '%sclass %s%s { %s};' % ('[Association] ' if self.assoc else '', self.name,
+                                        ' : ' + self.parent if self.parent else '', body)
+
+    def cimclass(self):
+        from pywbem import CIMQualifier
+        props = []
+        if self.idkey:
+            props.append(CIMProperty('Id', None, type='string', qualifiers={'Key': CIMQualifier('Key', True)}))
+        for r, t, k in self.refs:
+            props.append(CIMProperty(r, None, type='reference', reference_class=t,
+                                     qualifiers={'Key': CIMQualifier('Key', True)} if k else {}))
+        return CIMClass(self.name, superclass=self.parent, properties=props,
+                        qualifiers={'Association': CIMQualifier('Association', True)} if self.assoc else {})
+
+
+def qual_decls():
+    from pywbem import CIMQualifierDeclaration
+    return [CIMQualifierDeclaration('Association', 'boolean', value=False, scopes={'ASSOCIATION': True},
+                                    overridable=False, tosubclass=True),
+            CIMQualifierDeclaration('Key', 'boolean', value=False, scopes={'PROPERTY': True, 'REFERENCE': True},
+                                    overridable=False, tosubclass=True)]
+
+
+BASE_SPECS = (Spec('N_Base', idkey=True), Spec('N_Other', idkey=True),
+              Spec('A_Bin', assoc=True, refs=(('Ante', 'N_Base', True), ('Dep', 'N_Base', True))),
+              Spec('A_Loose', assoc=True, idkey=True, refs=(('Src', 'N_Base', False), ('Dst', 'N_Base', False))),
+              Spec('A_Mixed', assoc=True, refs=(('Left', 'N_Base', True), ('Right', 'N_Other', True))))
+TOP_V1 = Spec('A_Top', assoc=True, refs=(('P', 'N_Base', True), ('Q', 'N_Other', True)))
+TOP_V2 = Spec('A_Top', assoc=True, refs=(('P', 'N_Base', True), ('Q', 'N_Base', True), ('R', 'N_Other', False)))
+ALL_ROLES = ('Ante', 'Dep', 'Src', 'Dst', 'Left', 'Right', 'P', 'Q', 'R')
+
+
+class MCls:
+    def __init__(self, spec, parent):
+        self.name, self.parent, self.declared, self.spec = spec.name, spec.parent, spec.assoc, spec
+        self.refs = (list(parent.refs) if parent else []) + [(r, t) for r, t, _ in spec.refs]
+        self.keyroles = (list(parent.keyroles) if parent else []) + [r for r, _, k in spec.refs if k]
+        self.idkey = spec.idkey or bool(parent and parent.idkey)
+
+
+class MNs:
+    def __init__(self):
+        self.cls, self.nodes, self.assocs = {}, {}, {}
+
+    def exists(self, c):
+        return c.lower() in self.cls
+
+    def chain(self, c):
+        c = self.cls.get(c.lower())
+        while c:
+            yield c
+            c = self.cls.get(c.parent.lower()) if c.parent else None
+
+    def is_a(self, c, anc):
+        return any(x.name.lower() == anc.lower() for x in self.chain(c))
+
+    def assoc_effective(self, c, declared_only=False):
+        return self.cls[c.lower()].declared if declared_only else any(x.declared for x in self.chain(c))
+
+    def subtree(self, c):
+        return [x.name for x in self.cls.values() if self.is_a(x.name, c)]
+
+    def leaf(self, c):
+        return self.subtree(c) == [self.cls[c.lower()].name]
+
+
+class ARec:
+    def __init__(self, cls, aid, ends):
+        self.cls, self.aid, self.ends = cls, aid, tuple(ends)
+
+    def key(self, ns, mcls):
+        kb = [('id', self.aid)] if mcls.idkey else []
+        kb += [(r.lower(), nodekey(e)) for r, e in self.ends if r in mcls.keyroles]
+        return (ns, self.cls.lower(), tuple(sorted(kb)))
+
+    def nss(self):
+        return {e[0] for _, e in self.ends}
+
+
+def same(a, b):
+    return a is None or a.lower() == b.lower()
+
+
+def h_refs(mns, xk, rc, role):
+    if rc is not None and not mns.exists(rc):
+        return INVALID
+    return srt(rec.key(xk[0], mns.cls[rec.cls.lower()]) for rec in mns.assocs.values()
+               if (rc is None or mns.is_a(rec.cls, rc)) and any(nodekey(e) == xk and same(role, r) for r, e in rec.ends))
+
+
+def h_assocs(mns, xk, ac, rc, role, rrole):
+    if (ac is not None and not mns.exists(ac)) or (rc is not None and not mns.exists(rc)):
+        return INVALID
+    return srt({nodekey(e2) for rec in mns.assocs.values() if ac is None or mns.is_a(rec.cls, ac)
+                for i, (r1, e1) in enumerate(rec.ends) if nodekey(e1) == xk and same(role, r1)
+                for j, (r2, e2) in enumerate(rec.ends)
+                if i != j and nodekey(e2) != xk and same(rrole, r2) and (rc is None or mns.is_a(e2[1], rc))})
+
+
+def c_refs(mns, tgt, rc, role, declared_only=False):
+    if not mns.exists(tgt) or (rc is not None and not mns.exists(rc)):
+        return INVALID
+    return sorted(a.name.lower() for a in mns.cls.values()
+                  if a.refs and mns.assoc_effective(a.name, declared_only) and (rc is None or mns.is_a(a.name, rc))
+                  and any(mns.is_a(tgt, t) and same(role, r) for r, t in a.refs))
+
+
+def c_assocs(mns, tgt, ac, rc, role, rrole, declared_only=False):
+    if not mns.exists(tgt) or (ac is not None and not mns.exists(ac)) or (rc is not None and not mns.exists(rc)):
+        return INVALID
+    return sorted({t2.lower() for a in mns.cls.values()
+                   if a.refs and mns.assoc_effective(a.name, declared_only) and (ac is None or mns.is_a(a.name, ac))
+                   for i, (r1, t1) in enumerate(a.refs) if mns.is_a(tgt, t1) and same(role, r1)
+                   for j, (r2, t2) in enumerate(a.refs)
+                   if i != j and same(rrole, r2) and (rc is None or mns.is_a(t2, rc))})
+
+
+def c_assocs_per_property(mns, tgt, ac, rc, role, rrole):
+    """Defect model for K_CLS: every reference property of a selected association class is taken as a far end on its
+    own (the near end is not excluded) unless it is the only one typed exactly (case-sensitively) as the source."""
+    sel = c_refs(mns, tgt, ac, role, declared_only=True)
+    if sel == INVALID or (rc is not None and not mns.exists(rc)):
+        return INVALID
+    out = set()
+    for a in sel:
+        refs = mns.cls[a].refs
+        for r, t in refs:
+            if same(rrole, r) and (rc is None or mns.is_a(t, rc)) and \
+                    not (t == tgt and sum(1 for _, t2 in refs if t2 == t) == 1):
+                out.add(t.lower())
+    return sorted(out)
+
+
+class Hist:
+    count = 0
+
+    def __init__(self, name, rnd, quick):
+        Hist.count += 1
+        self.name, self.rnd, self.quick = name, rnd, quick
+        self.conn = FakedWBEMConnection(default_namespace='root/a', use_pull_operations=None if Hist.count % 2 else False)
+        self.m = {'root/a': MNs()}
+        self.steps = []
+        self.seq = 0
+        self.nround = 0
+        self.flts = self.cflts = self.targets = None
+        self.step('qualifier declarations in root/a (mof)', self.conn.compile_mof_string, QUAL_MOF, namespace='root/a')
+
+    # -- plumbing
+    def step(self, text, fn, *a, **k):
+        self.steps.append(text)
+        r = call(fn, *a, **k)
+        if r[0] != 'ok':
+            self.steps[-1] += ' -> %r' % (r[1:],)
+            viol('history-step-fails', steps=self.steps, observed=repr(r)[:300])
+            raise Abort()
+        return r[1]
+
+    def bad(self, vid, **d):
+        viol(vid, steps=self.steps[-40:], nsteps=len(self.steps), round=self.nround, **d)
+
+    def npath(self, n):
+        return CIMInstanceName(n[1], {'Id': n[2]}, namespace=n[0])
+
+    def apath(self, rec, ns):
+        mc = self.m[ns].cls[rec.cls.lower()]
+        kb = {'Id': rec.aid} if mc.idkey else {}
+        kb.update({r: self.npath(e) for r, e in rec.ends if r in mc.keyroles})
+        return CIMInstanceName(rec.cls, kb, namespace=ns)
+
+    # -- the ways the repository can change
+    def add_ns(self, ns, via='add', specs=BASE_SPECS, class_via='add'):
+        self.step('add_namespace %s' % ns, self.conn.add_namespace, ns)
+        self.m[ns] = MNs()
+        if via == 'add':
+            self.step('add_cimobjects qualifier declarations in %s' % ns, self.conn.add_cimobjects, qual_decls(),
+                      namespace=ns)
+        else:
+            self.step('compile_mof_string qualifier declarations in %s' % ns, self.conn.compile_mof_string, QUAL_MOF,
+                      namespace=ns)
+        for s in specs:
+            self.add_class(ns, s, class_via)
+
+    def remove_ns(self, ns):
+        mns = self.m[ns]
+        for aid in list(mns.assocs):
+            self.delete_assoc(aid, ns)
+        for n in list(mns.nodes.values()):
+            self.delete_node(n)
+        roots = [c.name for c in mns.cls.values() if c.parent is None]
+        for c in sorted(roots, key=lambda c: not mns.cls[c.lower()].refs):
+            self.delete_class(ns, c)
+        for q in ('Association', 'Key'):
+            self.step('DeleteQualifier %s in %s' % (q, ns), self.conn.DeleteQualifier, q, namespace=ns)
+        self.step('remove_namespace %s' % ns, self.conn.remove_namespace, ns)
+        del self.m[ns]
+
+    def add_class(self, ns, spec, via):
+        mns = self.m[ns]
+        assert not mns.exists(spec.name) and (spec.parent is None or mns.exists(spec.parent))
+        txt = '%s in %s: %s' % ({'create': 'CreateClass', 'add': 'add_cimobjects', 'mof': 'compile_mof_string'}[via],
+                                ns, spec.mof())
+        if via == 'create':
+            self.step(txt, self.conn.CreateClass, spec.cimclass(), namespace=ns)
+        elif via == 'add':
+            self.step(txt, self.conn.add_cimobjects, spec.cimclass(), namespace=ns)
+        else:
+            self.step(txt, self.conn.compile_mof_string, spec.mof(), namespace=ns)
+        mns.cls[spec.name.lower()] = MCls(spec, mns.cls[spec.parent.lower()] if spec.parent else None)
+
+    def modify_class(self, ns, spec, via):
+        mns = self.m[ns]
+        old = mns.cls[spec.name.lower()]
+        assert mns.leaf(spec.name) and old.parent == spec.parent
+        assert not any(r.cls.lower() == spec.name.lower() for r in mns.assocs.values())
+        if via == 'modify':
+            self.step('ModifyClass in %s: %s' % (ns, spec.mof()), self.conn.ModifyClass, spec.cimclass(), namespace=ns)
+        else:
+            self.step('compile_mof_string (redefinition) in %s: %s' % (ns, spec.mof()), self.conn.compile_mof_string,
+                      spec.mof(), namespace=ns)
+        mns.cls[spec.name.lower()] = MCls(spec, mns.cls[spec.parent.lower()] if spec.parent else None)
+
+    def delete_class(self, ns, name):
+        mns = self.m[ns]
+        sub = {c.lower() for c in mns.subtree(name)}
+        gone = [n for n in mns.nodes.values() if n[1].lower() in sub]
+        for n in gone:      # no dangling ends are left behind (that situation is a known finding of its own)
+            self.detach(n)
+        self.step('DeleteClass %s in %s' % (name, ns), self.conn.DeleteClass, name, namespace=ns)
+        for n in gone:
+            del mns.nodes[nodekey(n)]
+        for aid in [a for a, r in mns.assocs.items() if r.cls.lower() in sub]:
+            for o in self.m.values():
+                o.assocs.pop(aid, None)
+        for c in sub:
+            del mns.cls[c]
+
+    def add_node(self, ns, cls, nid, via='create'):
+        n = (ns, cls, nid)
+        txt = '%s node %s:%s.Id=%s' % ((via,) + n)
+        if via == 'create':
+            p = self.step(txt, self.conn.CreateInstance, CIMInstance(cls, properties={'Id': nid}), namespace=ns)
+            if kpath(p) != nodekey(n):
+                self.bad('create-returned-path-differs', observed=str(p))
+        elif via == 'add':
+            self.step(txt, self.conn.add_cimobjects, CIMInstance(cls, properties={'Id': nid}, path=self.npath(n)),
+                      namespace=ns)
+        else:
+            self.step(txt, self.conn.compile_mof_string, 'instance of %s { Id = "%s"; };' % (cls, nid), namespace=ns)
+        self.m[ns].nodes[nodekey(n)] = n
+        return n
+
+    def add_assoc(self, req, cls, ends, via='create', aid=None):
+        mns = self.m[req]
+        mc = mns.cls[cls.lower()]
+        self.seq += 1
+        aid = aid or 'h%d' % self.seq
+        rec = ARec(cls, aid, ends)
+        nss = {req} | rec.nss()
+        assert [r for r, _ in ends] == [r for r, _ in mc.refs] and all(self.m[ns].exists(cls) for ns in nss)
+        assert nss == {req} or (mns.assoc_effective(cls, True) and via != 'add')
+        txt = '%s %s in %s %s' % (via, cls, req, ' '.join('%s=%s:%s.Id=%s' % ((r,) + e) for r, e in ends))
+        if via == 'create':
+            props = {r: self.npath(e) for r, e in ends}
+            if mc.idkey:
+                props['Id'] = aid
+            p = self.step(txt, self.conn.CreateInstance, CIMInstance(cls, properties=props), namespace=req)
+            if kpath(p) != rec.key(req, mc):
+                self.bad('create-returned-path-differs', observed=str(p))
+        elif via == 'add':
+            props = [CIMProperty('Id', aid)] if mc.idkey else []
+            props += [CIMProperty(r, self.npath(e), type='reference', reference_class=dict(mc.refs)[r])
+                      for r, e in ends]
+            self.m[req].assocs[aid] = rec
+            path = self.apath(rec, req)
+            del self.m[req].assocs[aid]
+            self.step(txt, self.conn.add_cimobjects, CIMInstance(cls, properties=props, path=path), namespace=req)
+        else:
+            body = 'Id = "%s"; ' % aid if mc.idkey else ''
+            body += ''.join('%s = "%s:%s.Id=\\"%s\\""; ' % ((r,) + e) for r, e in ends)
+            self.step(txt, self.conn.compile_mof_string, 'instance of %s { %s};' % (cls, body), namespace=req)
+        for ns in nss:
+            self.m[ns].assocs[aid] = rec
+        return aid
+
+    def holders(self, aid):
+        return [ns for ns in sorted(self.m) if aid in self.m[ns].assocs]
+
+    def modify_assoc(self, aid, role, new, via_ns=None):
+        ns = via_ns or self.holders(aid)[0]
+        old = self.m[ns].assocs[aid]
+        assert role not in self.m[ns].cls[old.cls.lower()].keyroles and dict(old.ends)[role][0] == new[0]
+        rec = ARec(old.cls, aid, [(r, new if r == role else e) for r, e in old.ends])
+        self.step('ModifyInstance %s %s through %s: %s=%s:%s.Id=%s' % ((old.cls, aid, ns, role) + new),
+                  self.conn.ModifyInstance, CIMInstance(old.cls, properties={role: self.npath(new)},
+                                                        path=self.apath(old, ns)))
+        for o in self.holders(aid):
+            self.m[o].assocs[aid] = rec
+
+    def delete_assoc(self, aid, via_ns=None):
+        ns = via_ns or self.holders(aid)[0]
+        rec = self.m[ns].assocs[aid]
+        self.step('DeleteInstance %s %s through %s' % (rec.cls, aid, ns), self.conn.DeleteInstance, self.apath(rec, ns))
+        for o in self.m.values():
+            o.assocs.pop(aid, None)
+
+    def detach(self, n):
+        k = nodekey(n)
+        for aid in sorted({a for o in self.m.values() for a, r in o.assocs.items()
+                           if any(nodekey(e) == k for _, e in r.ends)}):
+            self.delete_assoc(aid)
+
+    def delete_node(self, n):
+        self.detach(n)
+        self.step('DeleteInstance node %s:%s.Id=%s' % n, self.conn.DeleteInstance, self.npath(n))
+        del self.m[n[0]].nodes[nodekey(n)]
+
+    # -- the query matrix (fixed for the whole history so that every round re-asks what earlier rounds asked)
+    def set_matrix(self, acls, ncls, roles, focus=(), targets=()):
+        ac = [None] + list(acls) + [swapcase_first(acls[0]), ncls[0], 'A_Nope']
+        rc = [None] + list(ncls) + [swapcase_first(ncls[0]), acls[0], 'N_Nope']
+        ro = [None] + list(roles) + [swapcase_first(roles[0]), roles[-1].upper(), 'Nope']
+        uni = (ac, rc, ro, ro)
+        singles, pairs = [], []
+        for i in range(4):
+            for v in uni[i][1:]:
+                t = [None] * 4
+                t[i] = v
+                singles.append(tuple(t))
+        for i, j in itertools.combinations(range(4), 2):
+            for v in uni[i][1:]:
+                for x in uni[j][1:]:
+                    t = [None] * 4
+                    t[i], t[j] = v, x
+                    pairs.append(tuple(t))
+        seen = set(singles) | set(pairs)
+        deep = []
+        for _ in range(10 if self.quick else 150):
+            t = [None] * 4
+            for p in self.rnd.sample(range(4), self.rnd.choice((3, 3, 4))):
+                t[p] = self.rnd.choice(uni[p][1:])
+            if tuple(t) not in seen:
+                seen.add(tuple(t))
+                deep.append(tuple(t))
+        if self.quick:
+            keep = [t for t in singles if (t[0] in focus or t[1] in focus)]
+            rest = [t for t in singles if t not in keep]
+            chosen = keep + self.rnd.sample(rest, min(5, len(rest))) + \
+                self.rnd.sample([t for t in pairs if t[0] in focus or t[1] in focus], 6) + \
+                self.rnd.sample(pairs, 4) + deep[:3]
+        else:
+            chosen = singles + pairs + deep
+        self.flts = [(None,) * 4] + chosen
+        rf = list(itertools.product(ac, ro))
+        self.rflts = rf if not self.quick else \
+            [rf[0]] + [t for t in rf[1:] if t[0] in focus and t[1] is None] + self.rnd.sample(rf[1:], 8)
+        self.targets = list(targets) + [swapcase_first(targets[0]), 'N_Nope']
+        cf = singles + pairs + deep
+        self.cflts = [(None,) * 4] + (cf if not self.quick else
+                                      [t for t in singles if t[0] in focus or t[1] in focus][:6] + self.rnd.sample(cf, 8))
+
+    def sources(self):
+        out = []
+        for ns in sorted(self.m):
+            for n in self.m[ns].nodes.values():
+                out.append((n[2], ns, '%s:%s.Id=%s' % n, self.npath(n), nodekey(n)))
+        seen = set()
+        for ns in sorted(self.m):
+            for rec in self.m[ns].assocs.values():
+                k = rec.key(ns, self.m[ns].cls[rec.cls.lower()])
+                if k not in seen:
+                    seen.add(k)
+                    out.append(('~' + rec.aid, ns, 'assoc %s %s in %s' % (rec.cls, rec.aid, ns), self.apath(rec, ns), k))
+        out.sort(key=lambda s: (s[0], s[1]))       # same id in one namespace, then in the other
+        missing = ('root/a', 'N_Base', 'missing')
+        out.append(('missing', 'root/a', 'missing root/a:N_Base.Id=missing', self.npath(missing), nodekey(missing)))
+        if self.quick:
+            nodes = [s for s in out if s[0][0] != '~']
+            recs = [s for s in out if s[0][0] == '~']
+            out = nodes[:9] + self.rnd.sample(recs, min(2, len(recs)))
+        return [s[1:] for s in out]
+
+    # -- one round: the model against the server
+    def round(self, label):
+        self.nround += 1
+        self.steps.append('-- round %d (%s)' % (self.nround, label))
+        self.check_stores()
+        srcs = self.sources()
+        obs = {}
+        for flt in self.flts:
+            for src in srcs:
+                self.q_assoc(src, flt, obs)
+        for flt in self.rflts:
+            for src in srcs:
+                self.q_refs(src, flt)
+        self.symmetry(srcs, obs)
+        for ns in sorted(self.m):
+            for tgt in self.targets:
+                for flt in self.cflts:
+                    self.q_class(ns, tgt, flt)
+        picks = [(srcs[0], self.flts[0])] + [(self.rnd.choice(srcs), self.rnd.choice(self.flts))
+                                             for _ in range(2 if self.quick else 12)]
+        for src, flt in picks:
+            self.repeat(src, flt)
+            self.pulls(src, flt)
+        ns = self.rnd.choice(sorted(self.m))
+        self.repeat_class(ns, self.rnd.choice(self.targets[:-2]))
+
+    def check_stores(self):
+        for ns in sorted(self.m):
+            R.case((self.name, self.nround, 'store', ns))
+            mns = self.m[ns]
+            r = call(self.conn.EnumerateClassNames, namespace=ns, DeepInheritance=True)
+            if r[0] != 'ok' or sorted(c.lower() for c in r[1]) != sorted(mns.cls):
+                self.bad('history-stored-classes-differ-from-model', namespace=ns, observed=repr(r)[:300],
+                         expected=sorted(mns.cls))
+                raise Abort()
+            got = []
+            for c in mns.cls.values():
+                if c.parent is None:
+                    r = call(self.conn.EnumerateInstanceNames, c.name, namespace=ns)
+                    if r[0] != 'ok':
+                        self.bad('history-enumerate-instances-fails', namespace=ns, observed=repr(r)[:300])
+                        raise Abort()
+                    got.extend(kpath(p) for p in r[1])
+            exp = srt(list(mns.nodes) + [rec.key(ns, mns.cls[rec.cls.lower()]) for rec in mns.assocs.values()])
+            if srt(got) != exp:
+                self.bad('history-stored-instances-differ-from-model', namespace=ns, observed=repr(srt(got))[:400],
+                         expected=repr(exp)[:400])
+                raise Abort()
+
+    def inst_ok(self, inst):
+        k = kpath(inst.path)
+        mns = self.m.get(k[0])
+        if mns is None:
+            return False
+        if k in mns.nodes:
+            n = mns.nodes[k]
+            return inst.classname.lower() == n[1].lower() and inst.get('Id') == n[2]
+        for rec in mns.assocs.values():
+            if rec.key(k[0], mns.cls[rec.cls.lower()]) == k:
+                return inst.classname.lower() == rec.cls.lower() and \
+                    all(isinstance(inst.get(r), CIMInstanceName) and kpath(inst.get(r)) == nodekey(e)
+                        for r, e in rec.ends)
+        return False
+
+    def q_assoc(self, src, flt, obs):
+        ns, label, xpath, xk = src
+        R.case((self.name, self.nround, 'A', label, flt))
+        d = dict(op='Associators/AssociatorNames', source=label, AssocClass=flt[0], ResultClass=flt[1], Role=flt[2],
+                 ResultRole=flt[3])
+        kw = {k: v for k, v in zip(('AssocClass', 'ResultClass', 'Role', 'ResultRole'), flt) if v is not None}
+        names = call(self.conn.AssociatorNames, xpath, **kw)
+        full = call(self.conn.Associators, xpath, **kw)
+        exp = h_assocs(self.m[ns], xk, *flt)
+        if names[0] == 'exc' or full[0] == 'exc':
+            return self.bad('history-associators-raises', observed=[repr(names)[:200], repr(full)[:200]], **d)
+        if exp == INVALID:
+            return check_invalid(self, 'history-associators', names, full, d)
+        if names[0] != 'ok' or full[0] != 'ok':
+            return self.bad('history-associators-refused', observed=[repr(names)[:200], repr(full)[:200]],
+                            expected=repr(exp)[:300], **d)
+        try:
+            got = srt(kpath(p) for p in names[1])
+            gotf = srt(kpath(i.path) for i in full[1])
+        except Exception as e:  # noqa
+            return self.bad('history-associators-wrong-kind', observed=repr(e), **d)
+        if got != exp:
+            return self.bad('history-associatornames-differ-from-stored', expected=repr(exp)[:400],
+                            observed=repr(got)[:400], **d)
+        if gotf != exp:
+            return self.bad('history-associators-differ-from-stored', expected=repr(exp)[:400],
+                            observed=repr(gotf)[:400], **d)
+        if not all(self.inst_ok(i) for i in full[1]):
+            return self.bad('history-associators-instance-differs-from-stored', **d)
+        obs[(label, flt)] = (src, got)
+
+    def q_refs(self, src, flt):
+        ns, label, xpath, xk = src
+        R.case((self.name, self.nround, 'R', label, flt))
+        d = dict(op='References/ReferenceNames', source=label, ResultClass=flt[0], Role=flt[1])
+        kw = {k: v for k, v in zip(('ResultClass', 'Role'), flt) if v is not None}
+        names = call(self.conn.ReferenceNames, xpath, **kw)
+        full = call(self.conn.References, xpath, **kw)
+        exp = h_refs(self.m[ns], xk, *flt)
+        if names[0] == 'exc' or full[0] == 'exc':
+            return self.bad('history-references-raises', observed=[repr(names)[:200], repr(full)[:200]], **d)
+        if exp == INVALID:
+            return check_invalid(self, 'history-references', names, full, d)
+        if names[0] != 'ok' or full[0] != 'ok':
+            return self.bad('history-references-refused', observed=[repr(names)[:200], repr(full)[:200]],
+                            expected=repr(exp)[:300], **d)
+        try:
+            got = srt(kpath(p) for p in names[1])
+            gotf = srt(kpath(i.path) for i in full[1])
+        except Exception as e:  # noqa
+            return self.bad('history-references-wrong-kind', observed=repr(e), **d)
+        if got != exp:
+            return self.bad('history-referencenames-differ-from-stored', expected=repr(exp)[:400],
+                            observed=repr(got)[:400], **d)
+        if gotf != exp:
+            return self.bad('history-references-differ-from-stored', expected=repr(exp)[:400],
+                            observed=repr(gotf)[:400], **d)
+        if not all(self.inst_ok(i) for i in full[1]):
+            return self.bad('history-references-instance-differs-from-stored', **d)
+
+    def symmetry(self, srcs, obs):
+        """y in Assoc(x; ac, -, role, rrole)  <=>  x in Assoc(y; ac, -, rrole, role), on the observed answers."""
+        by_key = {s[3]: s for s in srcs}
+        back = {}
+        for (_, flt), (src, got) in list(obs.items()):
+            if flt[1] is not None:
+                continue
+            for yk in got:
+                ys = by_key.get(yk)
+                if ys is None:
+                    continue
+                bf = (flt[0], None, flt[3], flt[2])
+                if (ys[1], bf) not in back:
+                    R.case((self.name, self.nround, 'sym', ys[1], bf))
+                    kw = {k: v for k, v in zip(('AssocClass', 'ResultClass', 'Role', 'ResultRole'), bf)
+                          if v is not None}
+                    r = call(self.conn.AssociatorNames, ys[2], **kw)
+                    back[(ys[1], bf)] = srt(kpath(p) for p in r[1]) if r[0] == 'ok' else None
+                b = back[(ys[1], bf)]
+                if b is not None and src[3] not in b:
+                    self.bad('history-association-not-symmetric', source=src[1], filters=flt, associated=ys[1],
+                             reverse_filters=bf, reverse_result=repr(b)[:300])
+
+    def q_class(self, ns, tgt, flt):
+        R.case((self.name, self.nround, 'C', ns, tgt, flt))
+        mns = self.m[ns]
+        kw = {k: v for k, v in zip(('AssocClass', 'ResultClass', 'Role', 'ResultRole'), flt) if v is not None}
+        d = dict(op='class-level Associators/AssociatorNames', namespace=ns, target_class=tgt, **kw)
+        cp = CIMClassName(tgt, namespace=ns)
+
+        def lower(r, tup):
+            if r[0] != 'ok':
+                return r
+            try:
+                out = []
+                for o in r[1]:
+                    p = o[0] if tup else o
+                    if not isinstance(p, CIMClassName) or (p.namespace or '').lower() != ns or \
+                            (tup and o[1].classname != p.classname):
+                        return ('bad', repr(o)[:200])
+                    out.append(p.classname.lower())
+                return ('ok', sorted(out))
+            except Exception as e:  # noqa
+                return ('bad', repr(e))
+        n = lower(call(self.conn.AssociatorNames, cp, **kw), False)
+        f = lower(call(self.conn.Associators, cp, **kw), True)
+        self.judge_class(d, n, f, c_assocs(mns, tgt, *flt), c_assocs(mns, tgt, *flt, declared_only=True),
+                         c_assocs_per_property(mns, tgt, *flt), 'associators')
+        if flt[1] is None and flt[3] is None:
+            kw = {k: v for k, v in (('ResultClass', flt[0]), ('Role', flt[2])) if v is not None}
+            d = dict(op='class-level References/ReferenceNames', namespace=ns, target_class=tgt, **kw)
+            R.case((self.name, self.nround, 'CR', ns, tgt, flt))
+            n = lower(call(self.conn.ReferenceNames, cp, **kw), False)
+            f = lower(call(self.conn.References, cp, **kw), True)
+            decl = c_refs(mns, tgt, flt[0], flt[2], declared_only=True)
+            self.judge_class(d, n, f, c_refs(mns, tgt, flt[0], flt[2]), decl, decl, 'references')
+
+    def judge_class(self, d, n, f, exp, exp_decl, exp_pp, op):
+        if n[0] in ('exc', 'bad') or f[0] in ('exc', 'bad'):
+            return self.bad('history-class-level-%s-raises-or-wrong-kind' % op, observed=[repr(n)[:200], repr(f)[:200]],
+                            **d)
+        if exp == INVALID:
+            if not all(r == ('cimerror', 4) or (r[0] == 'ok' and not r[1]) for r in (n, f)) or n[0] != f[0]:
+                self.bad('history-class-level-%s-nonexistent-class-not-refused-or-empty' % op,
+                         observed=[repr(n)[:200], repr(f)[:200]], **d)
+            return
+        if n != f:
+            return self.bad('history-class-level-%s-names-differ-from-full' % op, names=repr(n)[:300],
+                            full=repr(f)[:300], **d)
+        if n != ('ok', exp):
+            if n == ('ok', exp_decl):
+                vid = K_IMP
+            elif n == ('ok', exp_pp):
+                vid = K_CLS
+            else:
+                vid = 'history-class-level-%s-differ-from-stored' % op
+            if vid == K_CLS:
+                d = dict(d, what=WHAT_CLS)
+            self.bad(vid, expected=repr(exp)[:300], observed=repr(n)[:300], **d)
+
+    def repeat(self, src, flt):
+        """The same query twice in a row: equal answers, no shared objects; spoiling the first answer (and the
+        arguments) changes neither the second answer nor the repository."""
+        ns, label, xpath, xk = src
+        kw = {k: v for k, v in zip(('AssocClass', 'ResultClass', 'Role', 'ResultRole'), flt) if v is not None}
+        rkw = {k: v for k, v in (('ResultClass', flt[0]), ('Role', flt[2])) if v is not None}
+        c = self.conn
+        for op, fn, k in (('AssociatorNames', c.AssociatorNames, kw), ('Associators', c.Associators, kw),
+                          ('ReferenceNames', c.ReferenceNames, rkw), ('References', c.References, rkw)):
+            R.case((self.name, self.nround, 'twice', op, label, flt))
+            d = dict(op=op, source=label, filters=k)
+            arg = xpath.copy()
+            if arg.namespace == 'root/a' and self.nround % 2:
+                arg.namespace = None
+            before = arg.copy()
+            r1, r2 = call(fn, arg, **k), call(fn, arg, **k)
+            if arg != before or arg.namespace != before.namespace or arg.host != before.host:
+                self.bad('history-query-modifies-its-argument', before=str(before), after=str(arg), **d)
+            if r1[0] != 'ok' or r2[0] != 'ok':
+                if r1 != r2:
+                    self.bad('history-same-query-twice-differs', observed=[repr(r1)[:200], repr(r2)[:200]], **d)
+                continue
+            key = (lambda o: kpath(o)) if op.endswith('Names') else (lambda o: kpath(o.path))
+            s1, s2 = sorted(r1[1], key=lambda o: repr(key(o))), sorted(r2[1], key=lambda o: repr(key(o)))
+            if s1 != s2:
+                self.bad('history-same-query-twice-differs', observed=[repr(s1)[:200], repr(s2)[:200]], **d)
+                continue
+            if r1[1] is r2[1] or any(a is b for a in r1[1] for b in r2[1]) or \
+                    (not op.endswith('Names') and any(a.path is b.path or a.properties is b.properties
+                                                     for a in r1[1] for b in r2[1])):
+                self.bad('history-same-query-twice-shares-objects', **d)
+            want = [key(o) for o in s2]
+            snap = [o.tomof() if not op.endswith('Names') else str(o) for o in s2]
+            for o in r1[1]:         # spoil the first answer in place
+                p = o if op.endswith('Names') else o.path
+                for kk, v in list(p.keybindings.items()):
+                    if isinstance(v, CIMInstanceName):
+                        v.keybindings['Id'] = 'spoilt'
+                        v.classname = 'Spoilt'
+                    else:
+                        p.keybindings[kk] = 'spoilt'
+                p.classname, p.namespace = 'Spoilt', 'spoilt'
+                if not op.endswith('Names'):
+                    for pr in o.properties.values():
+                        if isinstance(pr.value, CIMInstanceName):
+                            pr.value.keybindings['Id'] = 'spoilt'
+                            pr.value.namespace = 'spoilt'
+                        else:
+                            pr.value = 'spoilt'
+            del r1[1][:]
+            if [key(o) for o in s2] != want or [o.tomof() if not op.endswith('Names') else str(o) for o in s2] != snap:
+                self.bad('history-same-query-twice-shares-objects', **d)
+            r3 = call(fn, arg, **k)
+            if r3[0] != 'ok' or [key(o) for o in sorted(r3[1], key=lambda o: repr(key(o)))] != want:
+                self.bad('history-spoiling-an-answer-changes-the-next-answer', expected=repr(want)[:300],
+                         observed=repr(r3)[:300], **d)
+        self.check_stores()
+
+    def repeat_class(self, ns, tgt):
+        if not self.m[ns].exists(tgt):
+            return
+        cp = CIMClassName(tgt, namespace=ns)
+        for op, fn in (('Associators', self.conn.Associators), ('References', self.conn.References)):
+            R.case((self.name, self.nround, 'twice-class', op, ns, tgt))
+            d = dict(op='class-level ' + op, namespace=ns, target_class=tgt)
+            r1, r2 = call(fn, cp), call(fn, cp)
+            if r1[0] != 'ok' or r2[0] != 'ok':
+                continue
+            try:
+                snap = sorted(c.tomof() for _, c in r2[1])
+                if sorted(c.tomof() for _, c in r1[1]) != snap:
+                    self.bad('history-same-query-twice-differs', **d)
+                if any(a[0] is b[0] or a[1] is b[1] for a in r1[1] for b in r2[1]):
+                    self.bad('history-same-query-twice-shares-objects', **d)
+                for p, c in r1[1]:
+                    p.classname = 'Spoilt'
+                    c.classname, c.superclass = 'Spoilt', 'Spoilt'
+                    for pr in list(c.properties.values()):
+                        pr.reference_class = 'Spoilt'
+                        pr.qualifiers.clear()
+                    c.qualifiers.clear()
+                    c.properties.clear()
+                r3 = call(fn, cp)
+                if sorted(c.tomof() for _, c in r2[1]) != snap:
+                    self.bad('history-same-query-twice-shares-objects', **d)
+                if r3[0] != 'ok' or sorted(c.tomof() for _, c in r3[1]) != snap:
+                    self.bad('history-spoiling-an-answer-changes-the-next-answer', observed=repr(r3)[:300], **d)
+            except Exception as e:  # noqa
+                self.bad('history-class-level-raises-or-wrong-kind', observed=repr(e), **d)
+
+    def pulls(self, src, flt):
+        ns, label, xpath, xk = src
+        c = self.conn
+        kw = {k: v for k, v in zip(('AssocClass', 'ResultClass', 'Role', 'ResultRole'), flt) if v is not None}
+        rkw = {k: v for k, v in (('ResultClass', flt[0]), ('Role', flt[2])) if v is not None}
+        ea, er = h_assocs(self.m[ns], xk, *flt), h_refs(self.m[ns], xk, flt[0], flt[2])
+        ops = [('OpenAssociatorInstancePaths', lambda: drain(c, c.OpenAssociatorInstancePaths(xpath, MaxObjectCount=1, **kw), 'paths', c.PullInstancePaths), False, ea),
+               ('OpenAssociatorInstances', lambda: drain(c, c.OpenAssociatorInstances(xpath, MaxObjectCount=1, **kw), 'instances', c.PullInstancesWithPath), True, ea),
+               ('IterAssociatorInstancePaths', lambda: list(c.IterAssociatorInstancePaths(xpath, MaxObjectCount=2, **kw)), False, ea),
+               ('IterAssociatorInstances', lambda: list(c.IterAssociatorInstances(xpath, MaxObjectCount=2, **kw)), True, ea),
+               ('OpenReferenceInstancePaths', lambda: drain(c, c.OpenReferenceInstancePaths(xpath, MaxObjectCount=1, **rkw), 'paths', c.PullInstancePaths), False, er),
+               ('OpenReferenceInstances', lambda: drain(c, c.OpenReferenceInstances(xpath, MaxObjectCount=1, **rkw), 'instances', c.PullInstancesWithPath), True, er),
+               ('IterReferenceInstancePaths', lambda: list(c.IterReferenceInstancePaths(xpath, MaxObjectCount=2, **rkw)), False, er),
+               ('IterReferenceInstances', lambda: list(c.IterReferenceInstances(xpath, MaxObjectCount=2, **rkw)), True, er)]
+        for name, fn, is_inst, exp in ops:
+            R.case((self.name, self.nround, name, label, flt))
+            d = dict(op=name, source=label, filters=kw if 'Assoc' in name else rkw)
+            r = call(fn)
+            if exp == INVALID:
+                if not (r == ('cimerror', 4) or (r[0] == 'ok' and not r[1])):
+                    self.bad('history-pull-nonexistent-class-filter-not-refused-or-empty', observed=repr(r)[:300], **d)
+                continue
+            try:
+                got = srt(kpath(i.path if is_inst else i) for i in r[1]) if r[0] == 'ok' else None
+            except Exception as e:  # noqa
+                got = repr(e)
+            if got != exp:
+                self.bad('history-pull-or-iter-variant-differs-from-stored', expected=repr(exp)[:300],
+                         observed=repr(got if r[0] == 'ok' else r)[:300], **d)
+
+
+# ---------------------------------------------------------------- the histories
+HIST_TIMES = []
+
+
+def run_history(fn, *a):
+    import time
+    t0, c0 = time.time(), R.cases
+    try:
+        fn(*a)
+    except Abort:
+        pass
+    HIST_TIMES.append((fn.__name__, a[0] if isinstance(a[0], (str, int)) else '', R.cases - c0, round(time.time() - t0, 2)))
+
+
+def hist_subclass_ways(way, rnd, quick):
+    """(a) a new subclass of an association class / of a result class / of an endpoint class appears (through `way`)
+    after the filtered queries have been answered, is populated, and disappears again; the same names get another
+    place in the tree of a second namespace, and later another place in the first one."""
+    h = Hist('history/subclass/' + way, rnd, quick)
+    a, b = 'root/a', 'root/b'
+    for s in BASE_SPECS:
+        h.add_class(a, s, way)
+    h.add_ns(b, via='mof' if way == 'mof' else 'add', class_via=way)
+    h.set_matrix(['A_Bin', 'A_Loose', 'A_Mixed', 'A_S', 'A_L'], ['N_Base', 'N_Other', 'N_S', 'N_T'],
+                 ALL_ROLES[:6], focus=('A_Bin', 'A_Loose', 'A_S', 'N_Base', 'N_S', 'N_Other'),
+                 targets=('N_Base', 'N_S', 'N_T', 'N_Other', 'A_Bin'))
+    x, y, o = h.add_node(a, 'N_Base', 'x', way), h.add_node(a, 'N_Base', 'y'), h.add_node(a, 'N_Other', 'o', way)
+    h.add_assoc(a, 'A_Bin', [('Ante', x), ('Dep', y)], way)
+    h.add_assoc(a, 'A_Loose', [('Src', x), ('Dst', y)])
+    h.add_assoc(a, 'A_Mixed', [('Left', x), ('Right', o)])
+    bx, by, bz = h.add_node(b, 'N_Base', 'x'), h.add_node(b, 'N_Other', 'y', way), h.add_node(b, 'N_Base', 'z')
+    h.add_assoc(b, 'A_Mixed', [('Left', bx), ('Right', by)], way)
+    h.add_assoc(b, 'A_Bin', [('Ante', bz), ('Dep', bx)])
+    h.round('initial')
+    h.add_class(a, Spec('A_S', 'A_Bin', assoc=(way != 'add')), way)
+    h.round('empty subclass of an association class added')
+    h.add_assoc(a, 'A_S', [('Ante', y), ('Dep', x)], way)
+    h.round('instance of the new association subclass')
+    h.add_class(a, Spec('N_S', 'N_Base'), way)
+    h.round('empty subclass of the result/endpoint class added')
+    s = h.add_node(a, 'N_S', 's', way)
+    h.add_assoc(a, 'A_Bin', [('Ante', x), ('Dep', s)], way)
+    h.round('instance of the new result subclass associated')
+    h.add_assoc(a, 'A_Loose', [('Src', s), ('Dst', y)], way)
+    h.round('instance of the new endpoint subclass as source')
+    h.add_class(a, Spec('N_T', 'N_S'), way)
+    t = h.add_node(a, 'N_T', 't', way)
+    h.add_assoc(a, 'A_S', [('Ante', s), ('Dep', t)])
+    h.round('second level subclass')
+    h.add_class(b, Spec('N_S', 'N_Other'), way)
+    h.add_class(b, Spec('A_S', 'A_Loose', assoc=True), way)
+    bs = h.add_node(b, 'N_S', 's', way)
+    h.add_assoc(b, 'A_Mixed', [('Left', bx), ('Right', bs)], way)
+    h.add_assoc(b, 'A_S', [('Src', bx), ('Dst', bz)], way)
+    h.round('same names elsewhere in the tree of the other namespace')
+    h.add_class(a, Spec('A_L', 'A_Loose', assoc=True), way)
+    al = h.add_assoc(a, 'A_L', [('Src', x), ('Dst', t)], way)
+    h.round('subclass of the non-key association')
+    h.modify_assoc(al, 'Dst', s)
+    h.round('reference value changed')
+    h.delete_class(a, 'N_T')
+    h.round('second level subclass deleted')
+    h.delete_class(a, 'A_S')
+    h.round('association subclass deleted')
+    h.delete_class(a, 'N_S')
+    h.round('result/endpoint subclass deleted')
+    h.add_class(a, Spec('N_S', 'N_Other'), way)
+    s2 = h.add_node(a, 'N_S', 's', way)
+    h.add_assoc(a, 'A_Mixed', [('Left', y), ('Right', s2)], way)
+    h.add_class(a, Spec('A_S', 'A_Mixed', assoc=True), way)
+    h.add_assoc(a, 'A_S', [('Left', x), ('Right', s2)], way)
+    h.round('deleted names reused elsewhere in the tree')
+    h.delete_class(b, 'A_S')
+    h.delete_class(b, 'N_S')
+    h.round('subclasses deleted in the other namespace')
+
+
+FLAVOUR1 = (Spec('N_Sub', 'N_Base'), Spec('N_SubSub', 'N_Sub'), Spec('A_BinSub', 'A_Bin', assoc=True),
+            Spec('A_LooseSub', 'A_Loose', assoc=True), Spec('A_BinImp', 'A_Bin'))
+FLAVOUR2 = (Spec('N_Sub', 'N_Other'), Spec('N_SubSub', 'N_Base'), Spec('A_BinSub', 'A_Loose', assoc=True),
+            Spec('A_LooseSub', 'A_Bin', assoc=True))
+
+
+def populate1(h, ns, via='create'):
+    x, y, z, o = (h.add_node(ns, 'N_Base', 'x', via), h.add_node(ns, 'N_Sub', 'y'), h.add_node(ns, 'N_SubSub', 'z'),
+                  h.add_node(ns, 'N_Other', 'o', via))
+    h.add_assoc(ns, 'A_Bin', [('Ante', x), ('Dep', y)], via)
+    h.add_assoc(ns, 'A_BinSub', [('Ante', y), ('Dep', z)], via)
+    h.add_assoc(ns, 'A_Loose', [('Src', x), ('Dst', z)])
+    h.add_assoc(ns, 'A_LooseSub', [('Src', z), ('Dst', y)], via)
+    h.add_assoc(ns, 'A_Mixed', [('Left', z), ('Right', o)])
+    h.add_assoc(ns, 'A_BinImp', [('Ante', z), ('Dep', x)], via)
+    return x, y, z, o
+
+
+def populate2(h, ns, via='create'):
+    x, y, z, o = (h.add_node(ns, 'N_Base', 'x'), h.add_node(ns, 'N_Sub', 'y', via), h.add_node(ns, 'N_SubSub', 'z', via),
+                  h.add_node(ns, 'N_Other', 'o'))
+    h.add_assoc(ns, 'A_Bin', [('Ante', x), ('Dep', z)])
+    h.add_assoc(ns, 'A_BinSub', [('Src', x), ('Dst', z)], via)
+    h.add_assoc(ns, 'A_LooseSub', [('Ante', z), ('Dep', x)], via)
+    h.add_assoc(ns, 'A_Mixed', [('Left', x), ('Right', y)], via)
+    h.add_assoc(ns, 'A_Mixed', [('Left', z), ('Right', o)])
+    return x, y, z, o
+
+
+def hist_namespaces(rnd, quick):
+    """(b) same-named classes with different subclass trees and different instances in several namespaces of one
+    connection, the same filters asked alternately; namespaces come, go and come back with another tree."""
+    h = Hist('history/namespaces', rnd, quick)
+    a, b, c, dd = 'root/a', 'root/b', 'root/c', 'root/d'
+    for s in BASE_SPECS + FLAVOUR1:
+        h.add_class(a, s, 'mof')
+    h.add_ns(b, via='add', specs=BASE_SPECS + FLAVOUR2, class_via='create')
+    h.add_ns(c, via='mof', class_via='add')
+    h.set_matrix(['A_Bin', 'A_Loose', 'A_Mixed', 'A_BinSub', 'A_LooseSub', 'A_BinImp'],
+                 ['N_Base', 'N_Other', 'N_Sub', 'N_SubSub', 'N_Leaf'], ALL_ROLES[:6],
+                 focus=('A_Bin', 'A_Loose', 'A_BinSub', 'A_LooseSub', 'N_Base', 'N_Sub', 'N_SubSub', 'N_Other'),
+                 targets=('N_Base', 'N_Sub', 'N_SubSub', 'N_Other', 'A_BinSub'))
+    ax, ay, az, ao = populate1(h, a)
+    bx, by, bz, bo = populate2(h, b)
+    cx, co = h.add_node(c, 'N_Base', 'x'), h.add_node(c, 'N_Other', 'o')
+    h.add_assoc(c, 'A_Mixed', [('Left', cx), ('Right', co)])
+    h.round('three namespaces, two trees')
+    h.add_assoc(a, 'A_Bin', [('Ante', ax), ('Dep', cx)])
+    cl = h.add_assoc(c, 'A_Loose', [('Src', cx), ('Dst', bx)], 'mof')
+    h.round('associations across namespaces')
+    h.delete_class(a, 'N_SubSub')
+    h.round('leaf deleted in one namespace only')
+    h.add_class(b, Spec('N_Leaf', 'N_SubSub'), 'mof')
+    bl = h.add_node(b, 'N_Leaf', 'z')
+    h.add_assoc(b, 'A_Bin', [('Ante', bl), ('Dep', bz)])
+    h.modify_assoc(cl, 'Dst', bl, via_ns=b)
+    h.round('leaf added in the other namespace only')
+    h.add_ns(dd, via='mof', specs=BASE_SPECS + FLAVOUR1, class_via='mof')
+    populate1(h, dd, 'mof')
+    h.round('fourth namespace with the first tree')
+    h.remove_ns(b)
+    h.round('namespace removed')
+    h.add_ns(b, via='mof', specs=BASE_SPECS + FLAVOUR1, class_via='add')
+    populate1(h, b, 'add')
+    h.round('namespace back with the other tree')
+    h.remove_ns(dd)
+    h.add_ns(dd, via='add', specs=BASE_SPECS + FLAVOUR2, class_via='create')
+    populate2(h, dd, 'mof')
+    h.round('fourth namespace back with the second tree')
+    h.delete_class(a, 'A_Bin')
+    h.round('association class with subclasses and instances deleted')
+    h.remove_ns(c)
+    h.round('third namespace removed')
+
+
+def hist_instances(rnd, quick):
+    """(c) instances come and go and reference values change between rounds (same instance paths reused with other
+    ends), through every way instances can be written."""
+    h = Hist('history/instances', rnd, quick)
+    a, b = 'root/a', 'root/b'
+    for s in BASE_SPECS + FLAVOUR1:
+        h.add_class(a, s, 'create')
+    h.add_ns(b, via='add', class_via='mof')
+    h.set_matrix(['A_Bin', 'A_Loose', 'A_Mixed', 'A_BinSub', 'A_LooseSub'], ['N_Base', 'N_Other', 'N_Sub', 'N_SubSub'],
+                 ALL_ROLES[:6], focus=('A_Loose', 'A_Bin', 'N_Base', 'N_Sub'),
+                 targets=('N_Base', 'N_Sub', 'A_Loose'))
+    n = [h.add_node(a, c, 'n%d' % i, WAYS[i % 3]) for i, c in enumerate(('N_Base', 'N_Sub', 'N_SubSub', 'N_Base',
+                                                                        'N_Sub'))]
+    o = [h.add_node(a, 'N_Other', 'o%d' % i) for i in range(2)]
+    bn = [h.add_node(b, 'N_Base', 'n%d' % i, WAYS[i % 3]) for i in range(3)]
+    h.round('nodes only')
+    for k, way in enumerate(WAYS):
+        l1 = h.add_assoc(a, 'A_Loose', [('Src', n[0]), ('Dst', n[1])], way, aid='L1')
+        l2 = h.add_assoc(a, 'A_LooseSub', [('Src', n[2]), ('Dst', n[0])], way, aid='L2')
+        b1 = h.add_assoc(a, 'A_Bin', [('Ante', n[k]), ('Dep', n[3])], way)
+        h.add_assoc(a, 'A_Mixed', [('Left', n[1]), ('Right', o[k % 2])], way)
+        x1 = h.add_assoc(b, 'A_Loose', [('Src', bn[0]), ('Dst', n[4])], 'create' if way == 'add' else way, aid='X1')
+        h.round('written through ' + way)
+        h.modify_assoc(l1, 'Dst', n[2 + k])
+        h.modify_assoc(l2, 'Src', n[(k + 3) % 5])
+        h.modify_assoc(x1, 'Src', bn[1 + k % 2], via_ns=(a, b)[k % 2])
+        h.round('reference values changed')
+        h.modify_assoc(l1, 'Src', n[2 + k])
+        h.modify_assoc(x1, 'Dst', n[k])
+        h.round('reference values changed again (both ends the same object)')
+        h.delete_assoc(l1)
+        h.delete_assoc(b1)
+        h.round('association instances deleted')
+        h.delete_assoc(x1, via_ns=(b, a)[k % 2])
+        h.delete_assoc(l2)
+        h.delete_node(n[1])
+        n[1] = h.add_node(a, ('N_SubSub', 'N_Base', 'N_Sub')[k], 'n1', way)
+        h.round('node replaced by one of another class under the same Id')
+
+
+def hist_modify_class(rnd, quick):
+    """ModifyClass (directly and through a MOF redefinition) changes the reference properties of an association class
+    between rounds."""
+    h = Hist('history/modify-class', rnd, quick)
+    a, b = 'root/a', 'root/b'
+    for s in BASE_SPECS:
+        h.add_class(a, s, 'add')
+    h.add_ns(b, via='add', class_via='create')
+    h.set_matrix(['A_Top', 'A_Bin', 'A_Mixed'], ['N_Base', 'N_Other', 'N_Sub'], ('P', 'Q', 'R', 'Ante', 'Left'),
+                 focus=('A_Top', 'N_Base', 'N_Other'), targets=('N_Base', 'N_Other', 'N_Sub', 'A_Top'))
+    h.add_class(a, Spec('N_Sub', 'N_Base'), 'create')
+    x, y, o, o2 = (h.add_node(a, 'N_Base', 'x'), h.add_node(a, 'N_Sub', 'y'), h.add_node(a, 'N_Other', 'o'),
+                   h.add_node(a, 'N_Other', 'o2'))
+    bx, bo = h.add_node(b, 'N_Base', 'x'), h.add_node(b, 'N_Other', 'o')
+    h.add_assoc(a, 'A_Mixed', [('Left', y), ('Right', o)])
+    h.round('before the class exists')
+    h.add_class(a, TOP_V1, 'create')
+    h.add_class(b, TOP_V2, 'mof')
+    h.round('class created, other definition in the other namespace')
+    t1 = h.add_assoc(a, 'A_Top', [('P', x), ('Q', o)])
+    t2 = h.add_assoc(b, 'A_Top', [('P', bx), ('Q', bx), ('R', bo)], 'mof')
+    h.round('instances')
+    h.delete_assoc(t1)
+    h.delete_assoc(t2)
+    h.modify_class(a, TOP_V2, 'modify')
+    h.modify_class(b, TOP_V1, 'modify')
+    h.round('definitions swapped through ModifyClass')
+    t1 = h.add_assoc(a, 'A_Top', [('P', x), ('Q', y), ('R', o)], 'mof')
+    h.add_assoc(b, 'A_Top', [('P', bx), ('Q', bo)], 'mof')
+    h.round('instances of the modified classes')
+    h.modify_assoc(t1, 'R', o2)
+    h.round('non-key reference of the modified class changed')
+    h.delete_assoc(t1)
+    h.modify_class(a, TOP_V1, 'mof')
+    h.round('redefined through MOF in the default namespace')
+    h.add_assoc(a, 'A_Top', [('P', y), ('Q', o2)], 'mof')
+    h.add_class(a, Spec('A_TopSub', 'A_Top', assoc=True), 'mof')
+    h.add_assoc(a, 'A_TopSub', [('P', x), ('Q', o2)], 'mof')
+    h.round('instances after the MOF redefinition')
+
+
+def hist_random(i, rnd, quick, nsteps):
+    h = Hist('history/random/%d' % i, rnd, quick)
+    for s in BASE_SPECS:
+        h.add_class('root/a', s, rnd.choice(WAYS))
+    h.add_ns('root/b', via=rnd.choice(('add', 'mof')), class_via=rnd.choice(WAYS))
+    npool, apool = ['N_R1', 'N_R2', 'N_R3'], ['A_R1', 'A_R2', 'A_R3']
+    h.set_matrix(['A_Bin', 'A_Loose', 'A_Mixed', 'A_Top'] + apool, ['N_Base', 'N_Other'] + npool, ALL_ROLES,
+                 focus=('A_Bin', 'A_Loose', 'A_Mixed', 'N_Base', 'N_Other', 'A_R1', 'N_R1'),
+                 targets=('N_Base', 'N_Other', 'N_R1', 'N_R2', 'A_R1'))
+    cnt = [0]
+
+    def node_classes(ns):
+        return [c.name for c in h.m[ns].cls.values() if not c.refs]
+
+    def assoc_classes(ns):
+        return [c.name for c in h.m[ns].cls.values() if c.refs]
+
+    def op_node():
+        ns = rnd.choice(sorted(h.m))
+        cnt[0] += 1
+        h.add_node(ns, rnd.choice(node_classes(ns)), 'n%d' % cnt[0], rnd.choice(WAYS))
+        return True
+
+    def candidates(ns, t, cross):
+        out = []
+        for o in (sorted(h.m) if cross else [ns]):
+            for n in h.m[o].nodes.values():
+                if h.m[o].is_a(n[1], t) and (o == ns or h.m[o].cls[n[1].lower()].parent is None):
+                    out.append(n)
+        return out
+
+    def op_assoc():
+        ns = rnd.choice(sorted(h.m))
+        cls = rnd.choice(assoc_classes(ns))
+        mc = h.m[ns].cls[cls.lower()]
+        cross = mc.parent is None and cls != 'A_Top' and rnd.random() < 0.3
+        ends = []
+        for r, t in mc.refs:
+            cand = candidates(ns, t, cross)
+            if not cand:
+                return False
+            ends.append((r, rnd.choice(cand)))
+        rec = ARec(cls, '?', ends)
+        def sig(r):
+            return tuple((x.lower(), nodekey(e)) for x, e in r.ends if x in mc.keyroles)
+        if not mc.idkey and any(o.cls.lower() == cls.lower() and sig(o) == sig(rec)
+                                for m in h.m.values() for o in m.assocs.values()):
+            return False
+        if not all(h.m[o].exists(cls) for o in rec.nss()):
+            return False
+        h.add_assoc(ns, cls, ends, rnd.choice(WAYS if rec.nss() <= {ns} else ('create', 'mof')))
+        return True
+
+    def op_modify():
+        opts = []
+        for ns in sorted(h.m):
+            for aid, rec in h.m[ns].assocs.items():
+                mc = h.m[ns].cls[rec.cls.lower()]
+                for r, t in mc.refs:
+                    if r not in mc.keyroles:
+                        opts.append((ns, aid, r, t))
+        if not opts:
+            return False
+        ns, aid, r, t = rnd.choice(opts)
+        old = dict(h.m[ns].assocs[aid].ends)[r]
+        cand = [n for n in h.m[old[0]].nodes.values() if h.m[old[0]].is_a(n[1], t) and n != old and
+                (old[0] == ns and len(h.holders(aid)) == 1 or h.m[old[0]].cls[n[1].lower()].parent is None)]
+        if not cand:
+            return False
+        h.modify_assoc(aid, r, rnd.choice(cand), via_ns=ns)
+        return True
+
+    def op_delassoc():
+        opts = [(ns, aid) for ns in sorted(h.m) for aid in h.m[ns].assocs]
+        if not opts:
+            return False
+        ns, aid = rnd.choice(opts)
+        h.delete_assoc(aid, ns)
+        return True
+
+    def op_delnode():
+        opts = [n for ns in sorted(h.m) for n in h.m[ns].nodes.values()]
+        if len(opts) < 4:
+            return False
+        h.delete_node(rnd.choice(opts))
+        return True
+
+    def op_subclass():
+        ns = rnd.choice(sorted(h.m))
+        if rnd.random() < 0.5:
+            free = [c for c in npool if not h.m[ns].exists(c)]
+            if not free:
+                return False
+            h.add_class(ns, Spec(rnd.choice(free), rnd.choice(node_classes(ns))), rnd.choice(WAYS))
+        else:
+            free = [c for c in apool if not h.m[ns].exists(c)]
+            par = [c for c in assoc_classes(ns) if c != 'A_Top']
+            if not free or not par:
+                return False
+            h.add_class(ns, Spec(rnd.choice(free), rnd.choice(par), assoc=rnd.random() < 0.7), rnd.choice(WAYS))
+        return True
+
+    def op_delclass():
+        ns = rnd.choice(sorted(h.m))
+        opts = [c.name for c in h.m[ns].cls.values() if c.parent is not None or c.name == 'A_Top']
+        if not opts:
+            return False
+        h.delete_class(ns, rnd.choice(opts))
+        return True
+
+    def op_top():
+        ns = rnd.choice(sorted(h.m))
+        mns = h.m[ns]
+        if not mns.exists('A_Top'):
+            h.add_class(ns, rnd.choice((TOP_V1, TOP_V2)), rnd.choice(WAYS))
+            return True
+        if not mns.leaf('A_Top') or any(r.cls == 'A_Top' for r in mns.assocs.values()):
+            return False
+        new = TOP_V2 if mns.cls['a_top'].spec is TOP_V1 else TOP_V1
+        h.modify_class(ns, new, 'mof' if ns == 'root/a' and rnd.random() < 0.5 else 'modify')
+        return True
+
+    def op_addns():
+        free = [ns for ns in ('root/b', 'root/c', 'root/d') if ns not in h.m]
+        if not free:
+            return False
+        ns = rnd.choice(free)
+        h.add_ns(ns, via=rnd.choice(('add', 'mof')), class_via=rnd.choice(WAYS))
+        for _ in range(2):
+            cnt[0] += 1
+            h.add_node(ns, rnd.choice(('N_Base', 'N_Other')), 'n%d' % cnt[0], rnd.choice(WAYS))
+        return True
+
+    def op_rmns():
+        opts = [ns for ns in sorted(h.m) if ns != 'root/a']
+        if not opts:
+            return False
+        h.remove_ns(rnd.choice(opts))
+        return True
+
+    ops = [op_node] * 3 + [op_assoc] * 6 + [op_modify] * 3 + [op_delassoc] * 2 + [op_delnode] + [op_subclass] * 5 + \
+        [op_delclass] * 2 + [op_top] * 2 + [op_addns, op_rmns]
+    for ns in sorted(h.m):
+        for k in range(3):
+            cnt[0] += 1
+            h.add_node(ns, ('N_Base', 'N_Base', 'N_Other')[k], 'n%d' % cnt[0])
+    for _ in range(4):
+        op_assoc()
+    h.round('initial')
+    for _ in range(nsteps):
+        for _ in range(20):
+            op = rnd.choice(ops)
+            if op():
+                break
+        h.round(op.__name__[3:])
+
+
+def probe_mof_redefinition_namespace():
+    """compile_mof_string(namespace=X) of a class that already exists in X must change the class stored in X (seen
+    through the class-level traversal of X), and nothing in the default namespace."""
+    c = FakedWBEMConnection(default_namespace='root/a')
+    c.add_namespace('root/b')
+    v1 = Spec('A_Top', assoc=True, refs=(('P', 'N_Base', True), ('Q', 'N_Base', True)))
+    v2 = Spec('A_Top', assoc=True, refs=(('P', 'N_Base', True), ('Q', 'N_Other', True)))
+    base = QUAL_MOF + BASE_SPECS[0].mof() + BASE_SPECS[1].mof()
+    steps = []
+    for ns in ('root/a', 'root/b'):
+        steps.append('compile_mof_string(namespace=%r): %s' % (ns, base + v1.mof()))
+        c.compile_mof_string(base + v1.mof(), namespace=ns)
+    steps.append('compile_mof_string(namespace=\'root/b\'): %s' % v2.mof())
+    R.case(('mof-redefinition', 'root/b'))
+    r = call(c.compile_mof_string, v2.mof(), namespace='root/b')
+    got = {ns: call(lambda: sorted(p.classname for p in c.AssociatorNames(CIMClassName('N_Base', namespace=ns))))
+           for ns in ('root/a', 'root/b')}
+    exp = {'root/a': ('ok', ['N_Base']), 'root/b': ('ok', ['N_Other'])}
+    if r[0] != 'ok' or got != exp:
+        wrong = {'root/a': ('ok', ['N_Other']), 'root/b': ('ok', ['N_Base'])}
+        viol(K_MOFNS if r[0] == 'ok' and got == wrong else 'mof-redefinition-in-namespace-diverges', steps=steps,
+             what='compile_mof_string(mof, namespace=X) of a class that already exists in X applies the ModifyClass '
+                  'to the same-named class of the connection\'s DEFAULT namespace instead of X (MOF compiler passes '
+                  'the namespace positionally, the mock\'s MOF connection only looks at the keyword), so the '
+                  'class-level traversal of both namespaces no longer matches what was defined: after redefining '
+                  '[Association] A_Top{N_Base REF P; N_Base REF Q} as {N_Base REF P; N_Other REF Q} in root/b, '
+                  'AssociatorNames(root/b:N_Base) still answers [N_Base] and AssociatorNames(root/a:N_Base) now '
+                  'answers [N_Other]',
+             compile_result=repr(r)[:200], expected=repr(exp), observed=repr(got))
+
+
 # ---------------------------------------------------------------- main
+def histories(rnd, quick):
+    probe_mof_redefinition_namespace()
+    for way in WAYS:
+        run_history(hist_subclass_ways, way, rnd, quick)
+    run_history(hist_namespaces, rnd, quick)
+    run_history(hist_instances, rnd, quick)
+    run_history(hist_modify_class, rnd, quick)
+    for i in range(2 if quick else 12):
+        run_history(hist_random, i, rnd, quick, 10 if quick else 40)
+
+
 def main():
     rnd = random.Random(R.seed)
     quick = R.tier == 'quick'
@@ -1048,8 +2217,11 @@ def main():
     w = random_world('random/30-nodes', rnd, 30, 45, NSS)
     explore(w, 'sparse', rnd, nsample=2 if quick else 15, variants=0 if quick else 1, node_sources_only=True)
     class_level(rnd, quick)
+    histories(rnd, quick)
     for vid in sorted(PENDING, key=lambda v: (v.startswith('known:'), v)):
         R.violation(vid, **PENDING[vid])
+    import sys
+    print(HIST_TIMES, file=sys.stderr)
     R.finish()
 
 
